@@ -35,6 +35,42 @@ func (m acMem) Get(ctx context.Context, d digest.Digest) buffer.Buffer {
 	return buffer.NewProtoBufferFromByteSlice(&remoteexecution.ActionResult{}, data, buffer.BackendProvided(buffer.Irreparable(d)))
 }
 
+// failSwitch fails every call with UNAVAILABLE while on. (A scripted
+// "fail the n-th call" would tie the check to the number of back-end
+// calls one RPC makes.)
+type failSwitch struct {
+	blobstore.BlobAccess
+	on    bool
+	fired int
+}
+
+func (f *failSwitch) fail() error {
+	f.fired++
+	return status.Error(codes.Unavailable, "injected fault at ac")
+}
+
+func (f *failSwitch) Get(ctx context.Context, d digest.Digest) buffer.Buffer {
+	if f.on {
+		return buffer.NewBufferFromError(f.fail())
+	}
+	return f.BlobAccess.Get(ctx, d)
+}
+
+func (f *failSwitch) Put(ctx context.Context, d digest.Digest, b buffer.Buffer) error {
+	if f.on {
+		b.Discard()
+		return f.fail()
+	}
+	return f.BlobAccess.Put(ctx, d, b)
+}
+
+func (f *failSwitch) FindMissing(ctx context.Context, ds digest.Set) (digest.Set, error) {
+	if f.on {
+		return digest.EmptySet, f.fail()
+	}
+	return f.BlobAccess.FindMissing(ctx, ds)
+}
+
 func genActionResult(t *rapid.T, label string) *remoteexecution.ActionResult {
 	r := &remoteexecution.ActionResult{
 		ExitCode: int32(rapid.IntRange(0, 3).Draw(t, label+"/exit")),
@@ -65,9 +101,7 @@ func TestC14ActionCache(t *testing.T) {
 		kf := rapid.SampledFrom([]digest.KeyFormat{digest.KeyWithInstance, digest.KeyWithoutInstance}).Draw(t, "keyformat")
 		mem := backends.NewMem("ac", kf)
 		maxMsg := rapid.SampledFrom([]int{1 << 20, 1 << 20, 100, 30, 2}).Draw(t, "max_message_size")
-		fault := map[int]backends.Fault{}
-		var be blobstore.BlobAccess = acMem{mem}
-		faulty := backends.NewFaulty("ac", be, fault)
+		faulty := &failSwitch{BlobAccess: acMem{mem}}
 		srv := grpcservers.NewActionCacheServer(faulty, maxMsg)
 
 		// actions are identified by the digest of a small "Action" blob
@@ -77,7 +111,6 @@ func TestC14ActionCache(t *testing.T) {
 		nops := rapid.IntRange(1, 10).Draw(t, "nops")
 		var rendered []string
 		roundTrips, updates := 0, 0
-		calls := 0
 		// Two request headers per case, so that operations meet on the same
 		// entries.
 		envs := []batchEnv{genBatchEnv(t), genBatchEnv(t)}
@@ -102,12 +135,8 @@ func TestC14ActionCache(t *testing.T) {
 			if op == 0 {
 				kind = "update"
 			}
-			injected := false
-			if kind != "corrupt" && headerOK && chance(t, "backend_fault", 5) {
-				// Faulty counts calls that reach it; only well-formed requests do
-				fault[calls] = backends.Fault{Code: codes.Unavailable}
-				injected = true
-			}
+			injected := kind != "corrupt" && headerOK && chance(t, "backend_fault", 5)
+			faulty.on = injected
 			vc.Add(kind, e.String(), ai, malformed, injected)
 			switch kind {
 			case "update":
@@ -118,24 +147,34 @@ func TestC14ActionCache(t *testing.T) {
 					InstanceName: e.inst, DigestFunction: e.fnField, ActionDigest: ad, ActionResult: res,
 				})
 				rendered = append(rendered, fmt.Sprintf("update(%s #%d %s)->%s", e, ai, malformed, codeOf(err)))
+				faulty.on = false
 				switch {
 				case !headerOK:
-					if status.Code(err) != codes.InvalidArgument {
-						t.Fatalf("UpdateActionResult with a malformed request (%s, digest %v) returned %v, want INVALID_ARGUMENT", e, ad, err)
+					// any error (the property names no code)
+					if err == nil {
+						t.Fatalf("UpdateActionResult with a malformed request (%s, digest %v) succeeded", e, ad)
 					}
+					vc.ClassIf(status.Code(err) != codes.InvalidArgument, "malformed_request_not_INVALID_ARGUMENT")
 					if fmt.Sprint(before) != fmt.Sprint(mem.Keys()) {
 						t.Fatalf("rejected UpdateActionResult changed the back end")
 					}
 				case injected:
-					calls++
-					if status.Code(err) != codes.Unavailable {
-						t.Fatalf("back end failed with UNAVAILABLE, UpdateActionResult returned %v", err)
+					if err == nil {
+						t.Fatalf("back end failed every call with UNAVAILABLE, UpdateActionResult succeeded")
 					}
+					vc.ClassIf(status.Code(err) != codes.Unavailable, "backend_fault_recoded")
 					if fmt.Sprint(before) != fmt.Sprint(mem.Keys()) {
 						t.Fatalf("failed UpdateActionResult changed the back end")
 					}
+				case err != nil && proto.Size(res) > maxMsg:
+					// A result larger than the server's message size limit
+					// never reaches the handler of a real server; refusing it
+					// is as good as storing it.
+					if fmt.Sprint(before) != fmt.Sprint(mem.Keys()) {
+						t.Fatalf("rejected UpdateActionResult changed the back end")
+					}
+					vc.Class("update_over_limit_refused")
 				default:
-					calls++
 					if err != nil {
 						t.Fatalf("UpdateActionResult(%s, #%d) failed: %v", e, ai, err)
 					}
@@ -151,18 +190,18 @@ func TestC14ActionCache(t *testing.T) {
 					InstanceName: e.inst, DigestFunction: e.fnField, ActionDigest: ad,
 				})
 				rendered = append(rendered, fmt.Sprintf("get(%s #%d %s)->%s", e, ai, malformed, codeOf(err)))
-				if headerOK {
-					calls++
-				}
+				faulty.on = false
 				switch {
 				case !headerOK:
-					if status.Code(err) != codes.InvalidArgument {
-						t.Fatalf("GetActionResult with a malformed request (%s, digest %v) returned %v, %v; want INVALID_ARGUMENT", e, ad, got, err)
+					if err == nil {
+						t.Fatalf("GetActionResult with a malformed request (%s, digest %v) returned %v", e, ad, got)
 					}
+					vc.ClassIf(status.Code(err) != codes.InvalidArgument, "malformed_request_not_INVALID_ARGUMENT")
 				case injected:
-					if status.Code(err) != codes.Unavailable {
-						t.Fatalf("back end failed with UNAVAILABLE, GetActionResult returned %v, %v", got, err)
+					if err == nil {
+						t.Fatalf("back end failed every call with UNAVAILABLE, GetActionResult returned %v", got)
 					}
+					vc.ClassIf(status.Code(err) != codes.Unavailable, "backend_fault_recoded")
 				case corrupt[key]:
 					if err == nil {
 						t.Fatalf("GetActionResult of an entry whose stored bytes are not an ActionResult returned %v", got)
